@@ -113,7 +113,7 @@ def sc_replay_edges(chk, exe, edges, phases):
     for n, (seq, steps) in enumerate(zip(metas, res)):
         if steps is None:
             continue
-        for e, st in zip(seq, steps):
+        for e, st in zip(seq[-len(steps):] if quiet else seq, steps):
             nsteps += 1
             want = sc_state(e['to']) + [v_model_to_real(e['reading'], INV_MODEL_SC) if e['op'][0] == 'get' else None]
             if not e['to']['init']:
@@ -197,9 +197,10 @@ def sc_validate_traces(chk, exe, traces, work, tag):
 
 
 # ------------------------------------------------------------------ C14
-def scl_cfg(path, sync, initial, timeout, steps, tmax, mode, dump=False):
+def scl_cfg(path, sync, initial, timeout, steps, tmax, mode, dump=False, preset=None):
     s = ["SPECIFICATION Spec", "CONSTANTS Sync = %d" % sync, " Initial = %d" % initial, " Timeout = %d" % timeout,
-         " Steps = {%s}" % ",".join(map(str, steps)), " TMax = %d" % tmax, ' Mode = "%s"' % mode, "CONSTRAINT Bound",
+         " Steps = {%s}" % ",".join(map(str, steps)), " TMax = %d" % tmax, ' Mode = "%s"' % mode,
+         " Preset <- PresetNone" if preset is None else " Preset = %d" % preset, "CONSTRAINT Bound",
          "INVARIANT ValidApplied", "INVARIANT BoundedResponse", "INVARIANT NoReferenceOnlyKeepsTime",
          "PROPERTY BackupLaw", "PROPERTY BackupValue", "PROPERTY NoCorrupt", "PROPERTY Separation", "PROPERTY BackoffLaw", "PROPERTY RequestCount",
          "CHECK_DEADLOCK FALSE"]
@@ -213,10 +214,12 @@ def scl_state(m, base):
             1 if m['init'] else 0, v_model_to_real(m['last'], INV_MODEL_SCL), v_model_to_real(m['bv'], INV_MODEL_SCL), m['bw'], m['req']]
 
 
-def scl_replay_edges(chk, exe, edges, conf, tag):
+def scl_replay_edges(chk, exe, edges, conf, tag, preset=None, quiet=False):
+    """quiet: only the last loop() call of each script is followed by reads (the application does not look at the clock in between)"""
     sync, initial, timeout, mode = conf
-    init = key({'now': 0, 'status': 'Ready', 'cur': initial, 'reqStart': 0, 'lastSyncMs': 0, 'epoch': INV_MODEL_SCL, 'prev': 0, 'init': False,
-                'last': INV_MODEL_SCL, 'bv': INV_MODEL_SCL, 'bw': 0, 'req': 0})
+    pv = INV_MODEL_SCL if preset is None else preset
+    init = key({'now': 0, 'status': 'Ready', 'cur': initial, 'reqStart': 0, 'lastSyncMs': 0, 'epoch': pv, 'prev': 0, 'init': preset is not None,
+                'last': pv, 'bv': pv, 'bw': 0 if preset is None else 1, 'req': 0})
     paths = paths_to_nodes(edges, [init])
     scripts = []
     metas = []
@@ -226,8 +229,8 @@ def scl_replay_edges(chk, exe, edges, conf, tag):
             raise common.MachineryError('SystemClockLoop edge from unreachable node')
         seq = p + [e]
         base = [0, 65536 * 3, 2**32 - 65536 * 0 - 4000 if False else 65536 * 11][n % 3]
-        scripts.append(('S @ID@ %d %d %d %s %d' % (sync, initial, timeout, mode, base),
-                        ['L %d %d %s' % (x['d'], 1 if x['ready'] else 0, v_model_to_real(x['rv'], INV_MODEL_SCL)) for x in seq]))
+        scripts.append(('S @ID@ %d %d %d %s %d %s' % (sync, initial, timeout, mode, base, 'inv' if preset is None else preset),
+                        ['%s %d %d %s' % ('Q' if quiet and k < len(seq) - 1 else 'L', x['d'], 1 if x['ready'] else 0, v_model_to_real(x['rv'], INV_MODEL_SCL)) for k, x in enumerate(seq)]))
         metas.append((seq, base))
     res, crashes = run_driver(exe, 'scl', scripts)
     for c in crashes:
@@ -236,7 +239,7 @@ def scl_replay_edges(chk, exe, edges, conf, tag):
     for (seq, base), steps in zip(metas, res):
         if steps is None:
             continue
-        for e, st in zip(seq, steps):
+        for e, st in zip(seq[-len(steps):] if quiet else seq, steps):
             nsteps += 1
             want = scl_state(e['to'], base)
             got = st[:11]
